@@ -843,6 +843,10 @@ pub fn gen_cd(rng: &mut Rng) -> CdMode {
                 ("payment".to_string(), json!("x")),
             ];
             rng.shuffle(&mut m);
+            // extra data may also have nothing in it (a struct whose optional members are all absent, an empty map)
+            if rng.chance(1, 4) {
+                m.clear();
+            }
             CdMode::ExtraMap(m)
         }
         2 => {
@@ -850,7 +854,10 @@ pub fn gen_cd(rng: &mut Rng) -> CdMode {
             let l = *rng.pick(&[32usize, 32, 32, 20, 48, 64, 0, 33]);
             CdMode::CustomHash(rng.bytes(l))
         }
-        3 => CdMode::OptVec(Some(rng.bytes(32))),
+        3 => {
+            let l = *rng.pick(&[32usize, 32, 0, 20, 64]);
+            CdMode::OptVec(Some(rng.bytes(l)))
+        }
         4 => CdMode::OptVec(None),
         5 => CdMode::Ticking(rng.below(1000) as u32),
         _ => CdMode::Default,
